@@ -422,6 +422,35 @@ func (g *Gen) Actions(fail func(t *rapid.T, err error)) map[string]func(*rapid.T
 			}
 			return x.Rename(fd, fn, td, tn)
 		}),
+		// a directory (often one with entries of its own) moves to another parent, under a new name or over an
+		// existing one; never into its own subtree (known finding KF3)
+		"movedir": do("MOVEDIR", func(t *rapid.T) error {
+			var srcs []*MNode
+			for _, d := range g.unskipped(x.M.LiveKind(nt.NF3DIR)) {
+				if d != x.M.Root {
+					srcs = append(srcs, d)
+				}
+			}
+			if len(srcs) == 0 {
+				return x.Mkdir(LiveRef(x.M.Root), g.NewName(t, x.M.Root))
+			}
+			src := pick(t, srcs, "srcdir")
+			var tds []*MNode
+			for _, d := range g.unskipped(x.M.LiveKind(nt.NF3DIR)) {
+				if d != src.Parent && !x.RenameIsKnownFinding(src.Parent, src.Name, d) {
+					tds = append(tds, d)
+				}
+			}
+			if len(tds) == 0 {
+				return x.Mkdir(LiveRef(x.M.Root), g.NewName(t, x.M.Root))
+			}
+			td := pick(t, tds, "todir")
+			tn := g.NewName(t, td)
+			if pct(t, 30, "overwrite?") {
+				tn = g.OldName(t, td)
+			}
+			return x.Rename(LiveRef(src.Parent), src.Name, LiveRef(td), tn)
+		}),
 		"readdir": do("READDIR", func(t *rapid.T) error {
 			return x.Readdir(g.DirRef(t), false, pick(t, []uint32{100, 200, 512, 4096, 65536}, "count"))
 		}),
